@@ -196,6 +196,11 @@ def d2(cx: Cx, ob: Ob) -> None:
             ob.violate(fn.qualname, fn.where, f"_get_jsonld_context returns `{show(t)[:50]}`, not {{'@context': ...}}", detail="envelope")
     canon = syn = False
     unknown_writes = False
+    for t, ctx in s.returns():
+        d = t[4] if op(t) == "new" else t
+        if op(d) == "dict" and len(d[1]) == 1 and op(d[1][0][1]) not in ("new", "dict", "comp"):
+            # the context is the value of an expression (a fold, a helper's result), not a dict filled by stores
+            unknown_writes = True
     TERM = ("func", f"{API}._get_expanded_term")
 
     def term_ok(val, r) -> bool:
@@ -308,6 +313,12 @@ def d3(cx: Cx, ob: Ob) -> None:
     kinds: dict = {}
     unrecognised = False
     LINE = ("func", f"{API}._get_shacl_line")
+
+    sig = [q.name for q in line_fn.params]
+    if sig[:3] != ["prefix", "uri_prefix", "pattern"]:
+        # the call sites are read by parameter role: (prefix, uri_prefix, pattern)
+        ob.undecide(f"_get_shacl_line takes ({', '.join(sig)}), not (prefix, uri_prefix, pattern): which argument ends up after sh:namespace / sh:pattern is not read from the call sites")
+        return
 
     def roles(c, r, line):
         args = list(c[2]) + [None] * 3
@@ -427,6 +438,60 @@ def _escaped(t) -> bool:
     return seen
 
 
+def _escaped_deep(cx: Cx, t, depth: int = 0) -> bool:
+    """Every run-time part of the string ``t`` has passed through the backslash escaper."""
+    from ..rules import bind_args, single_return
+    from ..terms import substitute
+
+    if depth > 4:
+        return False
+    if is_const(t):
+        return True
+    if _escaped(t):
+        return True
+    if op(t) == "call" and op(t[1]) == "func":
+        h = cx.model.functions.get(t[1][1])
+        body = single_return(cx, h) if h is not None else None
+        b = bind_args(h, t) if h is not None else None
+        if body is not None and b is not None:
+            return _escaped_deep(cx, substitute(body, {("param", k): v for k, v in b.items()}), depth + 1)
+        return False
+    parts = concat_parts(t)
+    if parts is not None and len(parts) > 1:
+        return all(_escaped_deep(cx, x, depth + 1) for x in parts)
+    return False
+
+
+def _escaped_by_callers(cx: Cx, fn, pname: str) -> bool:
+    """Every call of ``fn`` in the package passes an already escaped string for ``pname`` (at least one call)."""
+    from ..rules import bind_args
+
+    n = 0
+    for g in cx.model.functions.values():
+        if g is fn:
+            continue
+        import ast as _ast
+
+        if not any(isinstance(x, _ast.Name) and x.id == fn.name for x in _ast.walk(g.node)):
+            continue
+        gs = cx.summary(g)
+        for c, ev, ctx in gs.calls(fn.name):
+            b = bind_args(fn, c)
+            if b is None or pname not in b:
+                return False
+            a = b[pname]
+            if op(a) == "default":
+                q = fn.param(pname)
+                if q is not None and isinstance(q.default, _ast.Constant):
+                    n += 1
+                    continue
+                return False
+            if not _escaped_deep(cx, a):
+                return False
+            n += 1
+    return n > 0
+
+
 @obligation("C14-D4", "SHACL escaping (FLOW): every value interpolated inside a double-quoted Turtle literal passes through the backslash escaper on every path", floor=3)
 def d4(cx: Cx, ob: Ob) -> None:
     fn = cx.fn(f"{API}._get_shacl_line", ob.id)
@@ -467,6 +532,9 @@ def d4(cx: Cx, ob: Ob) -> None:
                     b = bind_args(h, q)
                     if body is not None and b is not None:
                         q = substitute(body, {("param", k): v for k, v in b.items()})
+            if not _escaped(q) and op(p) == "param" and _escaped_by_callers(cx, fn, p[1]):
+                ob.site(f"{where(fn, ctx.path.out[2])} {fn.qualname}", f"{{{name}}} arrives escaped from every call site")
+                continue
             if not _escaped(q):
                 ob.violate(
                     fn.qualname,
@@ -724,3 +792,10 @@ def x1(cx: Cx, ob: Ob) -> None:
     from .c10 import check_no_aliasing
 
     check_no_aliasing(cx, ob)
+
+
+@obligation("C14-X3", "no memoised derived values (cached_property / lru_cache) on Record, Reference or Converter objects: the writers read a record's names through such derived values, and records change in place after add_record(merge=True) - a stale value is written out", floor=3)
+def x3(cx: Cx, ob: Ob) -> None:
+    from ..rules import cached_derivations
+
+    cached_derivations(cx, ob)
